@@ -371,6 +371,15 @@ from contracts.C11_flow import policy, propagation, configuration  # noqa: E402
 from pyvc import verify as _verify  # noqa: E402
 
 
+import ast as _ast_mod  # noqa: E402
+
+
+class _C11Body(_ast_mod.stmt):
+    """Marker statement: "the body of the `with` statement runs here" (stands where the `yield` of a generator-based context
+    manager stood; executed by C11Executor.s__C11Body)."""
+    _fields = ("value",)
+
+
 class C11Executor(_verify.Executor):
     """Instances of a `@dataclass(frozen=True)` class of the module (read from the real decorator list) are immutable:
     handing one to a helper inside a loop (`_check_entry(info, limits, source)`) does not havoc it at the loop cut."""
@@ -690,10 +699,124 @@ class C11Executor(_verify.Executor):
             return None
         return name
 
+    # -- a function is its body only when nothing decorates it: the inliner refuses any other decorated function (the call is
+    #    then out of the subset: native replay decides) ...
+    def run_body(self, st, fnode, env, static=None):
+        import ast as _ast
+        if isinstance(fnode, (_ast.FunctionDef, _ast.AsyncFunctionDef)):
+            decos = [_ast.unparse(d) for d in fnode.decorator_list]
+            if isinstance(fnode, _ast.AsyncFunctionDef) or any(d != "staticmethod" for d in decos):
+                raise ops.Unsupported(f"{self.module.rel}:{fnode.lineno} decorated function `{fnode.name}` "
+                                      f"(@{', @'.join(decos)[:60]}) is not its body")
+        return super().run_body(st, fnode, env, static)
+
+    # -- ... except a generator under exactly `@contextlib.contextmanager` (resolved through the import table) used as the manager
+    #    of a `with`: the body of the `with` runs where the single `yield` statement stands (same frame discipline as the real
+    #    thing: the generator's locals in its own frame, the body in the caller's), so try / except / finally around the yield
+    #    see the body's exceptions exactly as `gen.throw` delivers them.  Recognised only when the yield is one expression
+    #    statement reached unconditionally (through `try:` bodies and `with` bodies only), there is no other yield and no
+    #    `return` in the generator; a body that leaves by return / break / continue is not read this way (`unknown`).
+    def _generator_cm(self, item, st):
+        import ast as _ast
+        import copy
+        e = item.context_expr
+        if not (isinstance(e, _ast.Call) and isinstance(e.func, _ast.Name) and st.lookup(e.func.id) is None
+                and not any(isinstance(a, _ast.Starred) for a in e.args) and all(k.arg for k in e.keywords)):
+            return None
+        fnode = self.module.functions.get(e.func.id)
+        if not isinstance(fnode, _ast.FunctionDef) or len(fnode.decorator_list) != 1 or self.reg.get(f"{self.module.rel}::{e.func.id}") is not None:
+            return None
+        d = fnode.decorator_list[0]
+        imps = self.module.imports
+        dotted = imps.get(d.id) if isinstance(d, _ast.Name) else \
+            f"{imps.get(d.value.id)}.{d.attr}" if isinstance(d, _ast.Attribute) and isinstance(d.value, _ast.Name) and d.value.id in imps else None
+        if dotted != "contextlib.contextmanager" or (isinstance(d, _ast.Name) and (d.id in self.module.functions or d.id in self.module.assigns)):
+            return None
+        cache = self.__dict__.setdefault("_gencm", {})
+        if id(fnode) in cache:
+            return cache[id(fnode)][1]
+        g2 = None
+        inner = [n for n in _ast.walk(fnode) if n is not fnode]
+        ys = [n for n in inner if isinstance(n, (_ast.Yield, _ast.YieldFrom, _ast.Await))]
+        bad = [n for n in inner if isinstance(n, (_ast.Return, _ast.FunctionDef, _ast.AsyncFunctionDef, _ast.Lambda, _ast.ClassDef,
+                                                  _ast.Global, _ast.Nonlocal))]
+        if len(ys) == 1 and isinstance(ys[0], _ast.Yield) and not bad:
+            g2 = copy.deepcopy(fnode)
+            g2.decorator_list = []
+
+            def place(stmts):
+                for k, x in enumerate(stmts):
+                    if isinstance(x, _ast.Expr) and isinstance(x.value, _ast.Yield):
+                        m = _C11Body(value=x.value.value)
+                        _ast.copy_location(m, x)
+                        stmts[k] = m
+                        return m
+                    if isinstance(x, (_ast.Try, _ast.With)):
+                        m = place(x.body)
+                        if m is not None:
+                            return m
+                    if any(isinstance(y, _ast.Yield) for y in _ast.walk(x)):
+                        return None
+                return None
+            if place(g2.body) is None:
+                g2 = None
+        cache[id(fnode)] = (fnode, g2)
+        return g2
+
+    def s__C11Body(self, s, st):
+        from pyvc.symex import Outcome
+        w, item = self._gencm_with[-1]
+        outs = []
+        for (s2, val) in (self.ev(s.value, st) if s.value is not None else [(st, NONE)]):
+            gen_fr = s2.frames.pop()
+            fn_top = self.cur_fn_stack.pop()
+            self.inline_depth -= 1
+            hid = self._gencm_with.pop()
+            try:
+                starts = self.assign(item.optional_vars, val, s2) if item.optional_vars is not None else [s2]
+                res = [o for s3 in starts for o in self.exec_block(w.body, s3)]
+            finally:
+                self._gencm_with.append(hid)
+                self.inline_depth += 1
+                self.cur_fn_stack.append(fn_top)
+                s2.frames.append(gen_fr)
+            for o in res:
+                if o.st is not s2:
+                    o.st.frames.append(gen_fr.copy())
+                if o.kind not in ("fall", "raise"):
+                    self.unsupported(w, f"`with` body leaves a generator-based context manager by {o.kind}")
+                outs.append(o)
+        return outs
+
     def s_With(self, s, st):
         import ast as _ast
         from pyvc.symex import Outcome
         from pyvc.values import VRef, VExc
+        try:
+            gen = [self._generator_cm(it, st) for it in s.items] if not isinstance(s, _ast.AsyncWith) else []
+        except Exception:  # noqa -- not a shape read here: the engine decides
+            gen = []
+        if any(g is not None for g in gen):
+            if len(s.items) > 1:          # `with A, B: body` is `with A: with B: body`
+                inner = _ast.With(items=list(s.items[1:]), body=list(s.body), type_comment=None)
+                _ast.copy_location(inner, s)
+                outer = _ast.With(items=[s.items[0]], body=[inner], type_comment=None)
+                _ast.copy_location(outer, s)
+                return self.s_With(outer, st)
+            item, g2 = s.items[0], gen[0]
+            call = item.context_expr
+            stack = self.__dict__.setdefault("_gencm_with", [])
+            outs = []
+            for (s2, args) in self.ev_list(call.args, st):
+                for (s3, kwvals) in self.ev_list([k.value for k in call.keywords], s2):
+                    env = self.bind_params(g2, args, {k.arg: v for k, v in zip(call.keywords, kwvals)}, call)
+                    stack.append((s, item))
+                    try:
+                        res = self.run_body(s3, g2, env, None)
+                    finally:
+                        stack.pop()
+                    outs.extend(Outcome("fall", s4) for (s4, _v) in res)
+            return outs
         try:
             hit = [self._class_cm(it, st) for it in s.items]
         except Exception:  # noqa -- not a shape read here: the engine decides
